@@ -110,6 +110,9 @@ inductive Ph where
   | deA (e : Nat)
   | rm (e : Nat) (r : EdgeRec) (k : Key) (ks : List Key) (st : Stage)
   | drec (e : Nat) (r : EdgeRec)
+  | alA (n l : Nat)
+  | rlA (n l : Nat)
+  | lbB (n : Nat) (labs : List Nat)
   | unA (n : Nat) (lab : Option Nat) (v : Nat)
   | unB (n : Nat) (lab : Option Nat) (v : Nat)
   | unP (n : Nat) (val : Val)
@@ -128,6 +131,9 @@ def Ph.prog : Ph → Prog
   | .deA e => deleteEdgeProg e
   | .rm e _ k ks st => rmAt e k (rmSeq e ks (delTail e)) st
   | .drec e _ => delTail e
+  | .alA n l => addLabelProg n l
+  | .rlA n l => removeLabelProg n l
+  | .lbB n labs => .get (.node n) (labelPut n labs)
   | .unA n lab v => updateNodeProg n lab v
   | .unB n lab v => updateNodeSecond n lab v
   | .unP n val => .put (.node n) val (.done .ok)
@@ -183,6 +189,9 @@ def Local (ne0 : Nat) (D : Nat → Prop) (m : KV) (ne : Nat) (held : List Key) :
   | .rm e r k ks st => e ≤ ne0 ∧ D e ∧ (∀ r', edgeAt m e = some r' → r' = r) ∧ (∀ K ∈ k :: ks, K ∈ req r) ∧
       (∀ K ∈ req r, K ∉ pend k ks st → e ∉ L m K) ∧ stageOK m held k st
   | .drec e r => e ≤ ne0 ∧ D e ∧ (∀ r', edgeAt m e = some r' → r' = r) ∧ (∀ K ∈ req r, e ∉ L m K)
+  | .alA .. => True
+  | .rlA .. => True
+  | .lbB .. => True
   | .unA .. => True
   | .unB .. => True
   | .unP .. => True
@@ -263,6 +272,9 @@ theorem Local.frame {ne0 : Nat} {D : Nat → Prop} {m m' : KV} {ne ne' : Nat} {h
     obtain ⟨h1, hD, h2, h3⟩ := h
     obtain ⟨d1, d2⟩ := f.del e rfl
     exact ⟨h1, hD, fun r' hr' => h2 r' (d1 r' hr'), fun K hK => d2 K (h3 K hK)⟩
+  | alA n l => trivial
+  | rlA n l => trivial
+  | lbB n labs => trivial
   | unA n lab v => trivial
   | unB n lab v => trivial
   | unP n val => trivial
@@ -780,6 +792,58 @@ theorem step_drec {ne0 : Nat} {D : Nat → Prop} {phs : List Ph} {s : St} {held 
   · intro k hk; simp [Ph.holds] at hk
   · intro y hy; simp [Ph.creates] at hy
 
+theorem step_alA {ne0 : Nat} {D : Nat → Prop} {phs : List Ph} {s : St} {held : List Key} {i : Nat} {n l : Nat}
+    (hJ : J ne0 D phs s held) (hi : phs[i]? = some (.alA n l)) :
+    ∃ ph', ((Ph.alA n l).prog.step s).1 = ph'.prog ∧
+      J ne0 D (phs.set i ph') ((Ph.alA n l).prog.step s).2 held := by
+  simp only [Ph.prog, addLabelProg, Prog.step]
+  have key : ∀ ph' : Ph, (∀ x K, ¬ Exc ph' x K) → ph'.holds = none → ph'.creates = none →
+      Local ne0 D s.kv s.ne held ph' → J ne0 D (phs.set i ph') s held := by
+    intro ph' h1 h2 h3 h4
+    exact hJ.step_same hi _ s.ne held (Nat.le_refl _) (fun x K h => by simp [Exc] at h) h4
+      (fun _ _ _ _ _ _ h => h) (fun k hk => by simp [h2] at hk) (fun x hx => by simp [h3] at hx)
+  cases hv : s.kv (.node n) with
+  | none => exact ⟨.fin (.nodeNotFound n), by simp [Ph.prog], key _ (by simp [Exc]) rfl rfl trivial⟩
+  | some val =>
+    simp only
+    split
+    · exact ⟨.fin .ok, by simp [Ph.prog], key _ (by simp [Exc]) rfl rfl trivial⟩
+    · exact ⟨.lbB n (labelsOf val ++ [l]), by simp [Ph.prog], key _ (by simp [Exc]) rfl rfl trivial⟩
+
+theorem step_rlA {ne0 : Nat} {D : Nat → Prop} {phs : List Ph} {s : St} {held : List Key} {i : Nat} {n l : Nat}
+    (hJ : J ne0 D phs s held) (hi : phs[i]? = some (.rlA n l)) :
+    ∃ ph', ((Ph.rlA n l).prog.step s).1 = ph'.prog ∧
+      J ne0 D (phs.set i ph') ((Ph.rlA n l).prog.step s).2 held := by
+  simp only [Ph.prog, removeLabelProg, Prog.step]
+  have key : ∀ ph' : Ph, (∀ x K, ¬ Exc ph' x K) → ph'.holds = none → ph'.creates = none →
+      Local ne0 D s.kv s.ne held ph' → J ne0 D (phs.set i ph') s held := by
+    intro ph' h1 h2 h3 h4
+    exact hJ.step_same hi _ s.ne held (Nat.le_refl _) (fun x K h => by simp [Exc] at h) h4
+      (fun _ _ _ _ _ _ h => h) (fun k hk => by simp [h2] at hk) (fun x hx => by simp [h3] at hx)
+  cases hv : s.kv (.node n) with
+  | none => exact ⟨.fin (.nodeNotFound n), by simp [Ph.prog], key _ (by simp [Exc]) rfl rfl trivial⟩
+  | some val =>
+    simp only
+    split
+    · exact ⟨.lbB n ((labelsOf val).filter (fun x => x != l)), by simp [Ph.prog], key _ (by simp [Exc]) rfl rfl trivial⟩
+    · exact ⟨.fin .ok, by simp [Ph.prog], key _ (by simp [Exc]) rfl rfl trivial⟩
+
+theorem step_lbB {ne0 : Nat} {D : Nat → Prop} {phs : List Ph} {s : St} {held : List Key} {i : Nat} {n : Nat}
+    {labs : List Nat}
+    (hJ : J ne0 D phs s held) (hi : phs[i]? = some (.lbB n labs)) :
+    ∃ ph', ((Ph.lbB n labs).prog.step s).1 = ph'.prog ∧
+      J ne0 D (phs.set i ph') ((Ph.lbB n labs).prog.step s).2 held := by
+  simp only [Ph.prog, Prog.step]
+  have key : ∀ ph' : Ph, (∀ x K, ¬ Exc ph' x K) → ph'.holds = none → ph'.creates = none →
+      Local ne0 D s.kv s.ne held ph' → J ne0 D (phs.set i ph') s held := by
+    intro ph' h1 h2 h3 h4
+    exact hJ.step_same hi _ s.ne held (Nat.le_refl _) (fun x K h => by simp [Exc] at h) h4
+      (fun _ _ _ _ _ _ h => h) (fun k hk => by simp [h2] at hk) (fun x hx => by simp [h3] at hx)
+  cases hv : s.kv (.node n) with
+  | none => exact ⟨.fin (.nodeNotFound n), by simp [Ph.prog, labelPut], key _ (by simp [Exc]) rfl rfl trivial⟩
+  | some val =>
+    exact ⟨.unP n (.node labs (propOf val)), by simp [Ph.prog, labelPut], key _ (by simp [Exc]) rfl rfl trivial⟩
+
 theorem step_unA {ne0 : Nat} {D : Nat → Prop} {phs : List Ph} {s : St} {held : List Key} {i : Nat} {n : Nat}
     {lab : Option Nat} {v : Nat}
     (hJ : J ne0 D phs s held) (hi : phs[i]? = some (.unA n lab v)) :
@@ -1011,6 +1075,9 @@ theorem store_pres {ne0 : Nat} {D : Nat → Prop} {phs : List Ph} {s : St} {held
     | put l => exact step_rm_put hJ hi
     | rel => simp [Ph.prog, rmAt, Prog.label] at hlab
   | drec e r => exact step_drec hJ hi
+  | alA n l => exact step_alA hJ hi
+  | rlA n l => exact step_rlA hJ hi
+  | lbB n labs => exact step_lbB hJ hi
   | unA n lab v => exact step_unA hJ hi
   | unB n lab v => exact step_unB hJ hi
   | unP n val => exact step_unP hJ hi
@@ -1034,6 +1101,8 @@ def Op.adm2 (ne0 : Nat) (D : Nat → Prop) : Op → Prop
   | .createEdge .. => True
   | .deleteEdge e => e ≤ ne0 ∧ D e
   | .updateNode .. => True
+  | .addLabel .. => True
+  | .removeLabel .. => True
   | .updateEdge e _ => e ≤ ne0 ∧ ¬ D e
   | _ => False
 
@@ -1044,6 +1113,8 @@ def phOf : Op → Ph
   | .createEdge a b d ty v => .ceA a b d ty v
   | .deleteEdge e => .deA e
   | .updateNode n lab v => .unA n lab v
+  | .addLabel n l => .alA n l
+  | .removeLabel n l => .rlA n l
   | .updateEdge e v => .ueA e v
   | _ => .fin .ok
 
@@ -1174,6 +1245,9 @@ theorem silent_pres {ne0 : Nat} {D : Nat → Prop} {phs : List Ph} {s : St} {hel
         simp only [Local, stageOK, pend, and_true]
         exact ⟨h1, hD, h2, fun K hK => h3 K (by simp at hK ⊢; exact Or.inr hK), h4⟩
   | drec e r => simp [Ph.prog, delTail, Cfg.silent] at h
+  | alA n l => simp [Ph.prog, addLabelProg, Cfg.silent] at h
+  | rlA n l => simp [Ph.prog, removeLabelProg, Cfg.silent] at h
+  | lbB n labs => simp [Ph.prog, Cfg.silent] at h
   | unA n lab v => simp [Ph.prog, updateNodeProg, Cfg.silent] at h
   | unB n lab v => simp [Ph.prog, updateNodeSecond, Cfg.silent] at h
   | unP n val => simp [Ph.prog, Cfg.silent] at h
@@ -1361,7 +1435,7 @@ theorem prog_done {ph : Ph} {r : Res} (h : ph.prog = .done r) : ph = .fin r := b
   | add x r' k ks st => cases st <;> simp [Ph.prog, addAt, addTo] at h
   | rm e r' k ks st => cases st <;> simp [Ph.prog, rmAt, rmFrom] at h
   | _ => simp [Ph.prog, createEdgeProg, createEdgeCheckB, createEdgeAlloc, createEdgeFrom, deleteEdgeProg, delTail,
-      updateNodeProg, updateNodeSecond, updateEdgeProg, updateEdgeSecond] at h
+      updateNodeProg, updateNodeSecond, updateEdgeProg, updateEdgeSecond, addLabelProg, removeLabelProg] at h
 
 theorem WF_of_J_quiescent {ne0 : Nat} {D : Nat → Prop} {phs : List Ph} {s : St} {held : List Key} (hJ : J ne0 D phs s held)
     (hfin : ∀ (j : Nat) (ph : Ph), phs[j]? = some ph → ∃ r, ph = .fin r) : WF s.kv := by
@@ -1436,6 +1510,8 @@ theorem quiescentWF_of_adm2 (s0 : St) (h : Inv s0) (D : Nat → Prop) (programs 
 def Admissible (s0 : St) (programs : List (List Op)) : Op → Prop
   | .createEdge .. => True
   | .updateNode .. => True
+  | .addLabel .. => True
+  | .removeLabel .. => True
   | .deleteEdge e => e ≤ s0.ne
   | .updateEdge e _ => e ≤ s0.ne ∧ ∀ ops ∈ programs, Op.deleteEdge e ∉ ops
   | _ => False
@@ -1448,6 +1524,8 @@ theorem quiescentWF_of_admissible (s0 : St) (h : Inv s0) (programs : List (List 
   cases op with
   | createEdge a b d ty v => trivial
   | updateNode n lab v => trivial
+  | addLabel n l => trivial
+  | removeLabel n l => trivial
   | deleteEdge e => exact ⟨ha, ops, ho, hop⟩
   | updateEdge e v =>
     refine ⟨ha.1, ?_⟩
